@@ -232,7 +232,7 @@ def correspondence(ctx):
     common.repo_on_path()
     from props import c01_e2e
     # ---- loads(dumps(v)) and the bare library
-    vals = _values(ctx, "res", ctx.n(1500, 60000))
+    vals = _values(ctx, "res", ctx.n(4000, 60000))
     spec_lines, spec_expect = [], []
     for suite, real_fn in (("res", real_res), ("lib", real_lib)):
         lines, reals, cases = [], [], []
@@ -244,7 +244,8 @@ def correspondence(ctx):
                 spec_expect.append(("lossless=%d pyval=1" % V.is_lossless(tr), toks))
             for ser in SERS:
                 real, raw = real_fn(ser, v)
-                if suite == "res" and real[0] == "ok" and real[1][0] != "?":
+                if suite == "res" and real[0] == "ok" and real[1][0] != "?" and not excused(ser, tr) \
+                        and not excused(ser, V.tree(raw)):
                     spec_lines.append("spec %s %s" % (ser, " ".join(V.tokens(V.tree(raw)))))    # what is delivered is a normal form
                     spec_expect.append(("nf=1", toks))
                 ctx.evaluations += 1
@@ -265,7 +266,7 @@ def correspondence(ctx):
     # ---- loadsCall(dumpsCall(...)): plain calls, batch-shaped calls, kwargs=None
     rng = ctx.sub_rng("call")
     lines, reals, cases = [], [], []
-    for i in range(ctx.n(1200, 40000)):
+    for i in range(ctx.n(3000, 40000)):
         vargs, kwargs = _gen_call(rng, rng.choice([0, 1, 2, 3, 4]))
         tv, tk = V.tree(vargs), V.tree(kwargs)
         toks = " ".join(V.tokens(tv) + V.tokens(tk))
